@@ -54,7 +54,7 @@ def named_task_wraps(case):
 
 
 def is_excluded(case, known):
-    return KNOWN_QUEUED in known and named_task_wraps(case)
+    return KNOWN_QUEUED in known and "schedule" in case and named_task_wraps(case)
 
 
 def element_of(case):
